@@ -27,6 +27,8 @@ type c02Plan struct {
 	Empty []int `json:"empty,omitempty"`
 	// Twin: a second connection receives another response at the same time (resp.go).
 	Twin bool `json:"twin,omitempty"`
+	// Logical: the response arrives on a logical channel (whose setup was acknowledged by a header-only packet).
+	Logical bool `json:"logical,omitempty"`
 }
 
 // c02Packets builds the packets of the faulted delivery.
@@ -251,6 +253,7 @@ func (c02) Gen(r *Rand, idx int, tier string) interface{} {
 	p.QueueSize = Pick(r, []int{1, 2, 3, 5, 100})
 	p.Async = r.Pct(50)
 	p.Twin = r.Pct(15)
+	p.Logical = r.Pct(25)
 	p.DebugLog = r.Pct(20)
 	return p
 }
@@ -315,6 +318,11 @@ func (c02) Shrink(plan interface{}) []interface{} {
 		q.Twin = false
 		out = append(out, q)
 	}
+	if p.Logical {
+		q := cp()
+		q.Logical = false
+		out = append(out, q)
+	}
 	if len(p.Empty) > 0 {
 		q := cp()
 		q.Empty = nil
@@ -349,7 +357,7 @@ func (c02) Run(plan interface{}, schedSeed uint64, replay []simrt.Choice, lenien
 	cfg.Replay, cfg.Lenient, cfg.KeepLog = replay, lenient, keepLog
 	got := runResp(cfg,
 		respDelivery{Packets: c02Packets(body, p), TermAt: -1, Async: p.Async},
-		respClient{QueueSize: p.QueueSize, ReadTimeoutS: 50, DebugLog: p.DebugLog, ReadSizes: p.ReadSizes, Twin: p.Twin})
+		respClient{QueueSize: p.QueueSize, ReadTimeoutS: 50, DebugLog: p.DebugLog, ReadSizes: p.ReadSizes, Twin: p.Twin, Logical: p.Logical})
 	out := got.Out
 	StdOutcome(v, base.Out)
 	StdOutcome(v, out)
